@@ -270,7 +270,25 @@ func c07Sequential(r *mon.Run, k *world.Key, jr *rand.Rand, idx int) {
 		ci := jr.IntN(nc)
 		cc := creds[ci]
 		ctx, nonce := freshNonces(jr)
-		switch op := jr.IntN(7); op {
+		switch op := jr.IntN(8); op {
+		case 7: // two builders outstanding at the same time (the first is only used after the second was created)
+			hist += fmt.Sprintf(" two%d", ci)
+			b1, e1 := cc.c.C.CreateDisclosureProofBuilder([]int{1}, nil, true)
+			b2, e2 := cc.c.C.CreateDisclosureProofBuilder([]int{2}, nil, true)
+			if e1 != nil || e2 != nil {
+				r.Eval("op-error", "error")
+				continue
+			}
+			prepared[ci] = false
+			ctx2, nonce2 := freshNonces(jr)
+			l2, err2 := gabi.ProofBuilderList{b2}.BuildProofList(ctx2, nonce2, false)
+			l1, err1 := gabi.ProofBuilderList{b1}.BuildProofList(ctx, nonce, false)
+			if err1 != nil || err2 != nil {
+				r.Eval("op-error", "error")
+				continue
+			}
+			c07Record(r, log, ci, "outstanding-1", l1[0].(*gabi.ProofD), cc.c, k.PK, ctx, nonce)
+			c07Record(r, log, ci, "outstanding-2", l2[0].(*gabi.ProofD), cc.c, k.PK, ctx2, nonce2)
 		case 0: // prepare cache
 			hist += fmt.Sprintf(" prep%d", ci)
 			if err := cc.c.C.NonrevPrepareCache(); err != nil {
